@@ -13018,3 +13018,112 @@ impl PeerConnection {
         (held, attached)
     }
 }
+
+/// verif hooks (lifecycle agent, C10 / C17): read-only accessors to the negotiated
+/// role / transports, wrappers over private pure helpers, and entry points that run
+/// the real `setup_srtp` / `propagate_sctp_close_reason` / `close_with_reason` so the
+/// harness can compare them with the Lean models. Self-contained, add-only.
+#[cfg(rustrtc_verif)]
+impl PeerConnection {
+    /// `dtls_role` watch value: `Some(true)` = DTLS/SCTP client.
+    pub fn verif_lc_dtls_role(&self) -> Option<bool> {
+        *self.inner.dtls_role.borrow()
+    }
+    pub fn verif_lc_dtls_transport(&self) -> Option<Arc<DtlsTransport>> {
+        self.inner.dtls_transport.lock().clone()
+    }
+    pub fn verif_lc_sctp_transport(&self) -> Option<Arc<SctpTransport>> {
+        self.inner.sctp_transport.lock().clone()
+    }
+    pub fn verif_lc_rtp_transport(&self) -> Option<Arc<RtpTransport>> {
+        self.inner.rtp_transport.lock().clone()
+    }
+    /// `(rtp_media_transports.len(), rtp_media_ice_transports.len())`
+    pub fn verif_lc_extra_transport_counts(&self) -> (usize, usize) {
+        (
+            self.inner.rtp_media_transports.lock().len(),
+            self.inner.rtp_media_ice_transports.lock().len(),
+        )
+    }
+    /// Remote RTP / RTCP destination of every extra (non-primary) media transport, sorted.
+    pub fn verif_lc_extra_transport_remotes(
+        &self,
+    ) -> Vec<(std::net::SocketAddr, Option<std::net::SocketAddr>)> {
+        let mut v: Vec<_> = self
+            .inner
+            .rtp_media_transports
+            .lock()
+            .values()
+            .map(|t| {
+                let c = t.ice_conn();
+                let r = *c.remote_addr.read();
+                let rr = *c.remote_rtcp_addr.read();
+                (r, rr)
+            })
+            .collect();
+        v.sort();
+        v
+    }
+    /// Number of tracked fire-and-forget task handles not yet finished.
+    pub fn verif_lc_live_tracked_tasks(&self) -> usize {
+        self.inner.tasks.lock().iter().filter(|h| !h.is_finished()).count()
+    }
+    /// Runs the real `setup_srtp` against the live DTLS transport into a scratch
+    /// `RtpTransport` and returns the installed `(profile, tx_key, tx_salt, rx_key, rx_salt)`.
+    /// NOTE: `setup_srtp` re-points the transceivers at the scratch transport, so call this
+    /// only when the connection is about to be discarded.
+    pub fn verif_lc_setup_srtp(
+        &self,
+        is_client: bool,
+        profile_opt: Option<u16>,
+    ) -> Option<(crate::srtp::SrtpProfile, Vec<u8>, Vec<u8>, Vec<u8>, Vec<u8>)> {
+        let dtls = self.inner.dtls_transport.lock().clone()?;
+        let live = self.inner.rtp_transport.lock().clone()?;
+        let scratch = Arc::new(RtpTransport::new_with_ssrc_change(live.ice_conn(), true, false));
+        self.setup_srtp(&dtls, is_client, profile_opt, &scratch);
+        scratch.verif_lc_srtp_keying()
+    }
+    pub fn verif_lc_sdp_has_bundle(desc: &SessionDescription) -> bool {
+        Self::sdp_has_bundle(desc)
+    }
+    pub fn verif_lc_bundle_tag_mid(desc: &SessionDescription) -> Option<String> {
+        Self::bundle_tag_mid(desc)
+    }
+    pub fn verif_lc_remote_rtp_addr(
+        desc: &SessionDescription,
+        section: &MediaSection,
+    ) -> Option<std::net::SocketAddr> {
+        Self::remote_rtp_addr_from_section(desc, section)
+    }
+    pub fn verif_lc_remote_rtcp_addr(
+        section: &MediaSection,
+        remote_rtp_addr: std::net::SocketAddr,
+    ) -> Option<std::net::SocketAddr> {
+        Self::remote_rtcp_addr_from_media_section(section, remote_rtp_addr)
+    }
+    /// Runs the real `propagate_sctp_close_reason`.
+    pub fn verif_lc_propagate_sctp_close_reason(&self) {
+        propagate_sctp_close_reason(&self.inner);
+    }
+    /// Runs the real `close_with_reason` with an arbitrary outer reason.
+    pub fn verif_lc_close_with_reason(&self, reason: DisconnectReason) {
+        self.inner.close_with_reason(reason);
+    }
+    /// Clears `disconnect_reason` (so the reason table can be walked on one connection).
+    pub fn verif_lc_reset_disconnect_reason(&self) {
+        let _ = self.inner.disconnect_reason.send(None);
+    }
+    /// Number of `DataChannel`s still referenced from the connection's registry and their states.
+    pub fn verif_lc_channel_states(&self) -> Vec<(u16, usize)> {
+        let mut v: Vec<_> = self
+            .inner
+            .data_channels
+            .lock()
+            .iter()
+            .filter_map(|w| w.upgrade())
+            .map(|dc| (dc.id, dc.state.load(Ordering::SeqCst)))
+            .collect();
+        v.sort();
+        v
+    }
+}
